@@ -1,4 +1,5 @@
 import JugModel.Model.Loader
+import JugModel.Model.Reload
 import JugModel.Driver.Util
 open Lean
 namespace Jug.Drv
@@ -39,6 +40,20 @@ def handleLoader (op : String) (j : Json) : Option Json :=
     let res : Key → Option String := fun k => (resT.find? (·.1 == toString k)).map (·.2)
     let r := load res jf []
     some <| Json.mkObj [("tasks", jList jNat r.tasks), ("stopped", Json.bool r.stopped)]
+  | "reload" =>
+    -- the outer loop of `jug execute`: passes as [[executed, barrier], ...]
+    let nat (x : Json) : Nat := ((fromJson? x : Except String Nat).toOption).getD 0
+    let passes : List Jug.Reload.Pass := match j.getObjValD "passes" with
+      | .arr a => a.toList.map (fun x => match x with
+          | .arr p => ⟨nat (p.getD 0 .null), (p.getD 1 .null).getBool?.toOption.getD false⟩
+          | _ => ⟨0, false⟩)
+      | _ => []
+    let r := Jug.Reload.loop (nat (j.getObjValD "n")) 0 passes
+    let ex := match r.2 with
+      | some .done => "done"
+      | some .gaveUp => "gaveUp"
+      | none => "out-of-passes"
+    some <| Json.mkObj [("passes", jNat r.1), ("exit", Json.str ex)]
   | _ => none
 
 end Jug.Drv
